@@ -160,6 +160,23 @@ def main():
             if cn in dangerous or getattr(f, "secure", True) is False:
                 problems.append({"kind": "reachable", "program": label[:300], "function": "%s (%s)" % (getattr(f, "name", "?"), cn)})
 
+    # a trusted, non-secure interpreter of the same process has required every bundled module (in every form) first:
+    # nothing it loaded or bound may be visible to the secure interpreters created afterwards
+    T = impl.new_interpreter(False, job["legacy"])
+    T.setStandardOutput(io.StringIO())
+    T.base_environment.put("checkerlang_module_path", ValueList().addItem(ValueString(usermods)))
+    for f in sorted(os.listdir(moddir_pkg)):
+        if f.endswith(".ckl") and f[:-4] not in ("base", "legacy"):
+            for form in ("require %s" % f[:-4].capitalize(), "require %s" % f[:-4], "require %s unqualified" % f[:-4].capitalize()):
+                try:
+                    T.interpret(form, "trusted")
+                except BaseException:
+                    pass
+    for nm in natives:
+        try:
+            T.interpret("bind_native('%s')" % nm, "trusted")
+        except BaseException:
+            pass
     before = snapshot()
     # ---- (1) every native name, plain and under an alias, from the session scope, from a function and from a module-like child scope
     I = fresh()
@@ -244,6 +261,15 @@ def main():
             if flagv is not V.TRUE and not (isinstance(flagv, V.ValueBoolean) and flagv.value is True):
                 problems.append({"kind": "flag", "program": src[:300], "flag": str(flagv)})
             check_reachable(I, src)
+    # ---- (4) script files outside the module directories through require  [recorded finding C09-F1]
+    rel = os.path.relpath(os.path.join(canary, "b"), moddir_pkg)
+    for src in ['require "%s"; b->pwned' % rel, 'require "%s" as zz; zz->pwned' % rel, "def checkerlang_module_path = ['%s']; require b; b->pwned" % canary,
+                "def checkerlang_module_path = ['%s']; require b unqualified; pwned" % canary]:
+        I = fresh()
+        n0 = len(problems)
+        r = run(I, src, label="SCRIPT-PATH " + src)
+        if r[0] == "val" and len(problems) == n0:
+            problems.append({"kind": "audit", "program": "SCRIPT-PATH " + src, "events": [["value", str(r[1])[:40]]]})
     after = snapshot()
     if after != before:
         problems.append({"kind": "canary", "program": "(whole run)", "diff": [x for x in after if x not in before][:5] + [x for x in before if x not in after][:5]})
